@@ -234,6 +234,33 @@ pub(crate) mod verif_support {
         }
     }
 
+
+    /// Newest stamp seen from *any* origin on any source: a lower bound on "now" up to clock skew.
+    pub fn newest_seen_any<const N: usize>(set: &OrSWotSet<N>) -> Option<HLCTimestamp> {
+        let mut best: Option<HLCTimestamp> = None;
+        let mut n = 0;
+        while n < NODES {
+            if let Some(t) = newest_seen(set, n as u8) {
+                best = match best {
+                    Some(b) if b.seconds() >= t.seconds() => Some(b),
+                    _ => Some(t),
+                };
+            }
+            n += 1;
+        }
+        best
+    }
+
+    /// "the operation reaches the replica less than the forgiveness period after its timestamp,
+    /// clock skew included": the replica has seen nothing, from any origin, stamped 3600 s or
+    /// more after it.
+    pub fn timely_global<const N: usize>(set: &OrSWotSet<N>, ts: HLCTimestamp) -> bool {
+        match newest_seen_any(set) {
+            Some(m) => ts.seconds() + WINDOW > m.seconds(),
+            None => true,
+        }
+    }
+
     /// The stamp does not occur anywhere in the state (operations carry distinct stamps).
     pub fn fresh_stamp<const N: usize>(set: &OrSWotSet<N>, ts: HLCTimestamp) -> bool {
         let mut k = 0;
